@@ -576,6 +576,8 @@ def run(tier, seed):
             raise lib.MachineryError(f"{v}: {traces[i]['c']}")
         if v != "ok":
             g = "graph" if traces[i]["c"]["graph"] else "legacy"
+            if m[0]["config"].get("custom") == "nullphase":
+                g += ":nullphase"          # call-site discriminator (fixed_decomps={GlobalPhase: null_decomp})
             viol.append(Violation(key=f"decompose:{v}:{g}" + (f":{traces[i]['err']}" if traces[i]["err"] else ""),
                                   detail=f"{v} ({g}) gate set {m[0]['gate_set']} options {m[0]['config']} circuit {m[0]['ops']} -> "
                                          f"{m[2] if m[2] is not None else m[1]} {m[1] if m[2] is not None else ''} warned {traces[i]['warned']}",
